@@ -65,6 +65,86 @@ CHECKS.update({
         technique='Coq proof (decision equivalence with uninterpreted hash) + differential correspondence', ref='6/C19'),
 })
 
+CHECKS.update({
+    'C02': dict(
+        text='Coq theorems over an executable model of Dispatcher.find_handler and MethodDispatcher (trail walk, _cp_dispatch as an '
+             'oracle table, reverse scan): for every object tree, oracle table and path the chosen callable is exposed, comes from the '
+             'deepest trail entry that offers a handler (exposed default before the node, index only on an exact match), the virtual '
+             'path is the unconsumed segments in order with %2F restored, the function equals a short declarative resolver '
+             '(c02_spec), and the verb rules (HEAD->GET, 405 + sorted Allow, 404); tied to the code by differential runs on generated '
+             'real Python object trees with an independent oracle.',
+        note='Python attribute lookup (getattr/dir/bool) is materialised from the real objects and is an input of the model; '
+             '_cp_dispatch/popargs are oracles assumed deterministic; RoutesDispatcher is outside the model.',
+        technique='Coq proof (refinement of find_handler to a declarative resolver) + extracted-model differential correspondence', ref='6/C02'),
+    'C04': dict(
+        text='Coq theorems over an executable model of the multipart parser layered on the C05 reader model: read_lines_to_boundary '
+             'returns exactly the content and leaves the stream just after the delimiter line for every content without a '
+             'delimiter-like line, every buffer size and socket fragmentation; nothing past Content-Length is consumed; same-name '
+             'parts group in wire order; field/file classification; differential runs of whole multipart requests through WSGI.',
+        note='Proved under the weakest precondition for which the code is exact (no line that strips to the delimiter); the RFC '
+             'precondition (CRLF--boundary) is refuted for the faithful model and recorded as a known finding together with parts '
+             'carrying a registered Content-Type; tempfile is a byte store; parse_header modelled for the parameter forms generated.',
+        technique='Coq proof (stream refinement composed with the C05 cursor spec) + differential correspondence', ref='6/C04'),
+    'C06': dict(
+        text='Coq theorems over a model of response framing (tool effects on body/Content-Length, finalize, the HEAD rule, error and '
+             'redirect pages, ranged static bodies): the invariant "Content-Length absent or equal to the body length" is preserved '
+             'by every rewriting tool and established by finalize for every composition and order of tools, handler shape and '
+             'status, no-body statuses carry neither body nor length, HEAD = GET headers with zero bytes; the table of which '
+             'function that assigns response.body also resets Content-Length is regenerated from the sources on every run and '
+             'checked by a proven-sound boolean checker (tie); differential runs over a bounded lattice of handlers x tools.',
+        note='The bytes produced by gzip/codecs/JSON/templates are opaque (only lengths enter); which branch a tool takes is supplied '
+             'by a reference of the tool decisions; streamed responses: partial (c06_stream_partial), as the property demands less of them.',
+        technique='Coq proof (framing invariant over all tool compositions) + generated tool-effects tie + differential correspondence', ref='6/C06'),
+    'C07': dict(
+        text='Coq theorems over models of every framework parser of client data with explicit crash points (each Python operation that '
+             'can raise returns Crash in the model, library calls are section variables ranging over their declared raise-sets): each '
+             'parser is total with outcome Ok or Reject 4xx for every input and every oracle behaviour (24 theorems), and the '
+             'pipeline maps total parsers to a non-5xx status; differential runs of grammar-generated and mutated requests through '
+             'WSGI; the oracle reports any 5xx from any code path with the raising function as signature.',
+        note='Standard-library parsers are oracles with declared raise-sets (sampled each run); completeness of the parser list is by '
+             'reading, backed by the oracle pass over all code paths; two recorded known findings.',
+        technique='Coq proof (exception-flow totality per parser) + differential correspondence + 5xx oracle', ref='6/C07'),
+    'C10': dict(
+        text='Coq theorems over a heap model of per-request state: if every isolation field is initialised as a fresh copy or fresh '
+             'empty object no per-request operation writes an object reachable from a class-level root (frame), hence the '
+             'observation of a request is independent of every history before it and of every interleaving with requests on other '
+             'threads; the initialisation kind of every attribute is regenerated from the sources each run and checked by the '
+             'proven checker (tie); differential request histories on 1..16 real threads with mutating handlers.',
+        note='Shallow copies by design (nested mutable values shared); threading.local and dict/list atomicity trusted; request '
+             'initialisation is one model step.',
+        technique='Coq proof (frame/non-interference over histories and interleavings) + generated initialisation-kind tie + differential correspondence', ref='6/C10'),
+    'C11': dict(
+        text='Coq theorems over character-level models of normpath/join/abspath/unquote and the staticdir / FileSession guards: every '
+             'path handed to the file system resolves (lexically, and under a model kernel walk) inside the configured root for '
+             'every URL branch and session id, otherwise the request is refused; differential runs of a traversal grammar in a '
+             'sandbox tree with a file-system audit hook as independent oracle.',
+        note='Symlink-free tree (A_fs); POSIX path rules only; filelock/pickle/http.cookies mirrored in the harness.',
+        technique='Coq proof (segment-prefix containment for all strings) + differential correspondence with fs audit', ref='6/C11'),
+    'C16': dict(
+        text='Coq theorems over models of get_ranges, _serve_fileobj and validate_etags/validate_since: get_ranges equals the '
+             'declarative RFC 7233 slice list for every grammar header and length and ignores every invalid header, each 206 part is '
+             'content[start:stop] with a truthful Content-Range, 416 exactly when no range is satisfiable, HTTP/1.0 gets the whole '
+             'entity, and the conditional-request status equals a decision table written from the property text; differential runs '
+             'directly and through WSGI, exhaustive on small scopes.',
+        note='Header values as a WSGI server delivers them; ETag parameters with ";" unsupported in the model; dates compared as strings as in the code.',
+        technique='Coq proof (parser = declarative spec, decision-table equivalence) + differential correspondence', ref='6/C16'),
+    'C18': dict(
+        text='Coq theorems over a model of the process bus (publish with priority sort, failure collection, SystemExit fix-up, '
+             're-entrant (un)subscribe/publish, start/stop/exit/restart/graceful): every listener of the snapshot runs exactly once '
+             'in priority order whatever subset raises, state seen by listeners, exit order, the lifecycle table, start/exit '
+             'failure outcomes; differential call sequences against a real Bus with os._exit intercepted.',
+        note='Set-iteration order of equal priorities is an environment parameter; single-threaded callers; one recorded known finding (raising log listener).',
+        technique='Coq proof (publish/lifecycle invariants for all listener sets and failure patterns) + differential correspondence', ref='6/C18'),
+    'C20': dict(
+        text='Coq theorems over interleaving transition systems of BackgroundTask/Monitor and ThreadManager at bytecode-step '
+             'granularity: in every execution at most one callback invocation follows stop, a cancel sticks, at most one live '
+             'worker per monitor, graceful leaves exactly one, every serving thread gets start_thread/stop_thread exactly once; '
+             'schedules of the model are replayed on the real classes under a deterministic scheduler (sys.monitoring) and all '
+             'schedules up to a pre-emption bound are enumerated on the real threads.',
+        note='Real OS scheduling, Thread.join and signal delivery are outside the model (partial for runtime behaviour); dict ops atomic; fairness is a hypothesis.',
+        technique='Coq proof (invariants of an interleaving transition system) + schedule-replay correspondence on real threads', ref='6/C20'),
+})
+
 PENDING = {}
 
 
